@@ -33,11 +33,68 @@ type Fact struct {
 // CallerValue returns, for a value of the fact's helper that is one of its parameters, the value
 // the outermost function passed for it (nil when unknown).
 func (f Fact) CallerValue(v ssa.Value) ssa.Value {
-	p, ok := Unwrap(v).(*ssa.Parameter)
-	if !ok || f.ArgVals == nil {
+	if f.ArgVals == nil {
 		return nil
 	}
-	return f.ArgVals[ParamName(p)]
+	if p, ok := Unwrap(v).(*ssa.Parameter); ok {
+		return f.ArgVals[ParamName(p)]
+	}
+	// a field of a struct handed over by value (`f.sender` of `f delegateFunds`): the value the
+	// caller put into that field of the literal it passed
+	var param *ssa.Parameter
+	field := -1
+	switch x := Unwrap(v).(type) {
+	case *ssa.Field:
+		if p, ok := Unwrap(x.X).(*ssa.Parameter); ok {
+			param, field = p, x.Field
+		}
+	case *ssa.UnOp:
+		if fa, ok := x.X.(*ssa.FieldAddr); ok && x.Op == token.MUL {
+			if al, ok := fa.X.(*ssa.Alloc); ok {
+				// the local copy of a by-value struct parameter
+				for _, r := range *al.Referrers() {
+					if st, ok := r.(*ssa.Store); ok && st.Addr == ssa.Value(al) {
+						if p, ok := Unwrap(st.Val).(*ssa.Parameter); ok {
+							param, field = p, fa.Field
+						}
+					}
+				}
+			}
+		}
+	}
+	if param == nil {
+		return nil
+	}
+	arg := f.ArgVals[ParamName(param)]
+	if arg == nil {
+		return nil
+	}
+	ld, ok := Unwrap(arg).(*ssa.UnOp)
+	if !ok || ld.Op != token.MUL {
+		return nil
+	}
+	lit, ok := ld.X.(*ssa.Alloc)
+	if !ok {
+		return nil
+	}
+	var val ssa.Value
+	n := 0
+	for _, r := range *lit.Referrers() {
+		fa, ok := r.(*ssa.FieldAddr)
+		if !ok || fa.Field != field {
+			continue
+		}
+		for _, rr := range *fa.Referrers() {
+			if st, ok := rr.(*ssa.Store); ok && st.Addr == ssa.Value(fa) {
+				val = st.Val
+				n++
+			}
+		}
+	}
+	if n != 1 {
+		return nil
+	}
+	return val
 }
 
 // ReturnedNil reports whether the fact says that a call of a function whose short name ends
